@@ -260,7 +260,9 @@ def compact(with_names, n):
     sx.reach("compact")
 
 
-def device_info():
+def device_info(omit=None, order="file"):
+    """omit: one DeviceInfo key left out of the file (every key is optional: the others must still be taken);
+    order: keys in the usual order or reversed (the section is a key/value table, not a sequence)"""
     vn = sx.fresh_int("vendor", 0, 0xFFFFFFFF)
     pn = sx.fresh_int("product", 0, 0xFFFFFFFF)
     rn = sx.fresh_int("revision", 0, 0xFFFFFFFF)
@@ -268,21 +270,33 @@ def device_info():
     ntx = sx.fresh_int("ntx", 0, 512)
     vals = iter([num(vn, "hex"), num(pn), num(rn, "hexl"), num(nrx), num(ntx)])
     d = Doc()
-    d.section("DeviceInfo", [l % next(vals) if "%s" in l else l for l in DEVICE_INFO])
+    lines = [l % next(vals) if "%s" in l else l for l in DEVICE_INFO]
+    if omit is not None:
+        lines = [l for l in lines if l.split("=")[0] != omit]
+    if order == "reversed":
+        lines = lines[::-1]
+    d.section("DeviceInfo", lines)
     d.section("DummyUsage", ["Dummy0001=0", "Dummy0002=1", "Dummy0003=1", "Dummy0004=0", "Dummy0005=1",
                              "Dummy0006=0", "Dummy0007=1"])
     d.section("DeviceComissioning", ["NodeID=0x11", "Baudrate=250"])
     od = _import(d.text(), ".dcf")
     di = od.device_information
     tag = "C08/device-info"
-    sx.prove((di.vendor_number == vn) & (di.product_number == pn) & (di.revision_number == rn), "identity numbers",
-             tag + "/numbers")
-    sx.prove((di.nr_of_RXPDO == nrx) & (di.nr_of_TXPDO == ntx), "PDO counts", tag + "/pdo-counts")
-    sx.prove(di.vendor_name == "ACME motors" and di.product_name == "Drive 3000" and di.order_code == "D3K-1",
-             "names", tag + "/names")
-    sx.prove(sorted(di.allowed_baudrates) == [125000, 250000, 500000], "allowed bit rates", tag + "/baudrates")
-    sx.prove(di.simple_boot_up_slave is True and di.simple_boot_up_master is False and di.LSS_supported is True,
-             "flags", tag + "/flags")
+    expect = dict(vendor_number=("VendorNumber", vn), product_number=("ProductNumber", pn),
+                  revision_number=("RevisionNumber", rn), nr_of_RXPDO=("NrOfRXPDO", nrx), nr_of_TXPDO=("NrOfTXPDO", ntx),
+                  vendor_name=("VendorName", "ACME motors"), product_name=("ProductName", "Drive 3000"),
+                  order_code=("OrderCode", "D3K-1"), simple_boot_up_master=("SimpleBootUpMaster", False),
+                  simple_boot_up_slave=("SimpleBootUpSlave", True), granularity=("Granularity", 8),
+                  dynamic_channels_supported=("DynamicChannelsSupported", False),
+                  group_messaging=("GroupMessaging", False), LSS_supported=("LSS_Supported", True))
+    for attr, (key, want) in expect.items():
+        got = getattr(di, attr)
+        if key == omit:
+            sx.prove(got is None, "a key that is not in the file stays unset", tag + "/omitted")
+        else:
+            sx.prove(got is not None and got == want, "DeviceInfo %s" % key, tag + "/" + key)
+    rates = [r for k, r in (("BaudRate_125", 125000), ("BaudRate_250", 250000), ("BaudRate_500", 500000)) if k != omit]
+    sx.prove(sorted(di.allowed_baudrates) == rates, "allowed bit rates", tag + "/baudrates")
     sx.prove(od.node_id == 0x11 and od.bitrate == 250000, "node id and bit rate", tag + "/commissioning")
     for i, used in enumerate([0, 1, 1, 0, 1, 0, 1], 1):
         sx.prove((i in od) == bool(used), "dummy usage", tag + "/dummy")
@@ -315,6 +329,9 @@ def jobs(tier):
         for n in ((1, 3) if q else (1, 2, 3, 8, 20)):
             out.append(dict(func="compact", params=dict(with_names=wn, n=n)))
     out.append(dict(func="device_info", params={}))
+    out.append(dict(func="device_info", params=dict(order="reversed")))
+    for l in DEVICE_INFO:
+        out.append(dict(func="device_info", params=dict(omit=l.split("=")[0])))
     combos = [[0x02, 0x07], [0x10, 0x05, 0x15]] if q else [[0x02, 0x07], [0x10, 0x05, 0x15], [0x12, 0x13, 0x14, 0x1B],
                                                           [0x03, 0x04, 0x06, 0x16, 0x18], [0x19, 0x1A, 0x02, 0x10]]
     for codes in combos:
